@@ -101,7 +101,30 @@ const BASES: &[&str] = &[
     "(module (memory 1) (func (param $p i32) (local $l i64) i32.const 0 i32.load drop) (data \"xyz\"))",
 ];
 
-const NAMES: &[&str] = &["a", "meta", "producers", "", "target_features", "linking", "dylink.0", "x\u{e9}", "a"];
+const NAMES: &[&str] = &[
+    "a", "meta", "producers", "", "target_features", "linking", "dylink.0", "x\u{e9}", "a",
+    // names a tool-chain gives meaning to: to the crate they are custom sections like any other
+    "reloc.CODE", "reloc.DATA", "metadata.code.branch_hint", "core", "coremodules", "sourceMappingURL", "external_debug_info", "linking",
+];
+
+/// a payload the way the tool-chain conventions lay it out (what `wasmparser::KnownCustom` recognises), for the names that have one
+fn conventional_payload(name: &str) -> Option<Vec<u8>> {
+    Some(match name {
+        "producers" => producers_payload(),
+        // version 2, then a symbol-table subsection with no symbols
+        "linking" => vec![2, 8, 1, 0],
+        // index of the section the relocations apply to, number of entries
+        "reloc.CODE" => vec![3, 0],
+        "reloc.DATA" => vec![5, 1, 5, 0, 0, 0],
+        // one subsection: memory info (size, alignment, table size, table alignment)
+        "dylink.0" => vec![1, 4, 0, 0, 0, 0],
+        // one feature, prefix `+`
+        "target_features" => vec![1, 0x2b, 4, b's', b'i', b'm', b'd'],
+        // no functions with hints
+        "metadata.code.branch_hint" => vec![0],
+        _ => return None,
+    })
+}
 
 fn producers_payload() -> Vec<u8> {
     // one field "language" with one (name, version) pair
@@ -121,6 +144,11 @@ fn producers_payload() -> Vec<u8> {
 fn gen_data(r: &mut Rng, name: &str) -> Vec<u8> {
     if name == "producers" {
         return producers_payload();
+    }
+    if r.chance(2, 3) {
+        if let Some(d) = conventional_payload(name) {
+            return d;
+        }
     }
     let n = r.weighted(&[2, 3, 3, 2, 1]) * r.range(1, 3);
     (0..n).map(|_| r.next() as u8).collect()
